@@ -57,13 +57,13 @@ def subroutine(draw, name, template):
                 multi = []
                 if others:
                     q = others[0]
-                    used_params.add(q)
                     multi = [A.Flat([A.Operand("", A.Num("int", "2")), A.Operand("", A.Param(p)), A.Operand("", A.Param(q))], ["*", "-"]),
                              A.Flat([A.Operand("", A.Param(p)), A.Operand("", A.Param(q)), A.Operand("", A.Num("float", "0.5"))], ["/", "+"])]
                 e = draw(st.sampled_from(multi + [
                     S.F1(A.Param(p)), S.F1(A.Param(p), "-"),
                     A.Flat([A.Operand("", A.Num("float", "2.5")), A.Operand("", A.Param(p))], ["*"]),
                     A.Flat([A.Operand("", A.Param(p)), A.Operand("", A.Num("int", "1"))], ["+"])]))
+                used_params |= {x.name for x in A.walk_prims(e) if isinstance(x, A.Param)}
                 if draw(st.booleans()):
                     pos.append(e)
                 else:
@@ -263,7 +263,7 @@ def check(c):
         except refsem.OutOfDomain as e:
             return Outcome(discard="domain:" + e.reason)
         except refsem.RefModelError as e:
-            raise HarnessError("C07 generator: %s" % e)
+            return Outcome(discard="generator-invalid-model")
         except render.RenderError as e:
             raise HarnessError(str(e))
         for rel, text in texts.items():
